@@ -809,6 +809,9 @@ pub fn run(args: &Args) -> i32 {
     let results = par_shards_big_stack(nshards, 32 << 20, |shard| {
         let dir = format!("{root}/{shard}");
         let mut runs = 0u64;
+        let mut steps = 0u64;
+        let mut step_states: BTreeSet<u64> = BTreeSet::new();
+        let mut samples: Vec<String> = vec![];
         let mut outcomes: BTreeSet<u64> = BTreeSet::new();
         let mut classes: BTreeMap<String, u64> = BTreeMap::new();
         let mut fails: Vec<(Option<String>, String, String)> = vec![];
@@ -823,7 +826,12 @@ pub fn run(args: &Args) -> i32 {
                 let model = model_run(g, v);
                 let real = real_run(&dir, g, v);
                 outcomes.insert(hash_of(&format!("{model:?}")));
+                if samples.len() < 2 && runs % 997 == 1 {
+                    samples.push(format!("{:?} {} => {}", g.tags, serde_json::to_string(&ReplayFile { graph: g.clone(), variant: v.clone() }).unwrap(), model.iter().map(|m| format!("[{} | {} | done={}]", m.stdout.replace('\n', " "), m.outcome, m.cache_done)).collect::<Vec<_>>().join(" ")));
+                }
                 for st in &model {
+                    steps += 1;
+                    step_states.insert(hash_of(&format!("{st:?}")));
                     let c = st.outcome.split(':').next().unwrap_or("").to_string();
                     *classes.entry(c).or_insert(0) += 1;
                     for l in st.stdout.lines() {
@@ -859,13 +867,21 @@ pub fn run(args: &Args) -> i32 {
             }
         }
         let _ = std::fs::remove_dir_all(&dir);
-        (runs, outcomes, classes, fails)
+        (runs, outcomes, classes, fails, steps, step_states, samples)
     });
     let _ = std::fs::remove_dir_all(&root);
     let mut runs = 0;
     let mut outcomes = BTreeSet::new();
     let mut classes: BTreeMap<String, u64> = BTreeMap::new();
-    for (r, o, c, f) in results {
+    let mut steps = 0u64;
+    let mut step_states: BTreeSet<u64> = BTreeSet::new();
+    let mut samples: Vec<String> = vec![];
+    for (r, o, c, f, st, ss, sm) in results {
+        steps += st;
+        step_states.extend(ss);
+        if samples.len() < 6 {
+            samples.extend(sm);
+        }
         runs += r;
         outcomes.extend(o);
         for (k, n) in c {
@@ -876,6 +892,11 @@ pub fn run(args: &Args) -> i32 {
         }
     }
     report.cov("worlds_executed", runs);
+    report.cov("states", step_states.len() as u64);
+    report.cov("transitions", steps);
+    report.cov("traces_validated_against_impl", runs);
+    report.cov("samples", json!(samples));
+    report.cov("states_transitions_meaning", "state = distinct model observation after a script step (output, outcome, exports, cache census); transition = one script executed on the live runtime; trace = one world (files + script sequence) replayed on the real runtime and compared in full");
     report.cov("graphs_on_disk", work.len() as u64);
     report.cov("families", json!(fam_counts.iter().map(|(k, (g, v))| json!({"family": k, "graphs": g, "graph_x_variant_runs": v})).collect::<Vec<_>>()));
     report.cov("distinct_model_observations", outcomes.len() as u64);
